@@ -7,6 +7,7 @@ imported.  Anything outside the subset raises Unsupported (-> ANALYSIS-ERROR).""
 from __future__ import annotations
 
 import ast
+import itertools
 
 from .core import AnalysisError
 
@@ -235,9 +236,12 @@ class Interp:
                 it = self.ev(st.iter, env)
                 if not isinstance(it, (tuple, list, dict, set, frozenset, str, range, type({}.items()), type({}.keys()), type({}.values()), zip, enumerate)) and not hasattr(it, '__mock_iter__') and not hasattr(it, '__next__'):
                     raise self.fail(f'loop over non-concrete value {it!r}')
-                seq = list(it.__mock_iter__()) if hasattr(it, '__mock_iter__') else list(it)
-                if len(seq) > 64:
-                    raise self.fail('loop too long')
+                if hasattr(it, '__next__'):
+                    seq = itertools.islice(it, 0, 201)          # lazily: a `break` must leave the rest unconsumed
+                else:
+                    seq = list(it.__mock_iter__()) if hasattr(it, '__mock_iter__') else list(it)
+                    if len(seq) > 200:
+                        raise self.fail('loop too long')
                 broke = False
                 for item in seq:
                     self.assign(st.target, item, env)
